@@ -405,6 +405,7 @@ var skippable = map[string]schema.Change{
 	"ModifyTable": &schema.ModifyTable{}, "DropCheck": &schema.DropCheck{}, "AddForeignKey": &schema.AddForeignKey{}, "ModifyIndex": &schema.ModifyIndex{},
 	"AddCheck": &schema.AddCheck{}, "ModifyCheck": &schema.ModifyCheck{}, "ModifyForeignKey": &schema.ModifyForeignKey{}, "DropAttr": &schema.DropAttr{}, "AddAttr": &schema.AddAttr{}, "ModifyAttr": &schema.ModifyAttr{},
 	"RenameColumn": &schema.RenameColumn{}, "RenameIndex": &schema.RenameIndex{}, "DropPrimaryKey": &schema.DropPrimaryKey{}, "AddPrimaryKey": &schema.AddPrimaryKey{}, "ModifyPrimaryKey": &schema.ModifyPrimaryKey{},
+	"AddSchema": &schema.AddSchema{}, "DropSchema": &schema.DropSchema{},
 }
 
 func differOf(d string) schema.Differ {
@@ -850,5 +851,30 @@ func c19Skip(e *Env, sc skipCase) {
 	}
 	if hxJSON(got) != hxJSON(want) {
 		e.Res.Violate("failing-input", "skip-drops-or-adds-other-changes", fmt.Sprintf("%s skip=%v: got %v, expected (unskipped diff minus skipped kinds) %v", sc.Dialect, sc.Skip, got, want), "Props.C19.skip_complete", replay)
+		return
+	}
+	// realm level: a schema that exists only in the desired realm (its tables are added), one that exists
+	// only in the current realm (dropped), and the edited pair in between
+	f2, t2 := editedPair(r.Fork("realm"), sc.Dialect)
+	_, added := editedPair(r.Fork("added"), sc.Dialect)
+	gone, _ := editedPair(r.Fork("gone"), sc.Dialect)
+	added.Name, gone.Name = "s_added", "s_gone"
+	fromR, toR := schema.NewRealm(f2, gone), schema.NewRealm(t2, added)
+	rfull, err1 := d.RealmDiff(fromR, toR, schema.DiffNormalized())
+	rwith, err2 := d.RealmDiff(fromR, toR, schema.DiffNormalized(), schema.DiffSkipChanges(skips...))
+	if err1 != nil || err2 != nil {
+		e.Res.Tag("skip:realm-differ-error")
+		return
+	}
+	got, found, want, none = nil, nil, nil, nil
+	flatLeaves(rwith, "", skipped, false, &got, &found)
+	flatLeaves(rfull, "", skipped, true, &want, &none)
+	replay = map[string]any{"skip_case": sc, "realm": true, "with_skip": got, "expected": want}
+	if len(found) > 0 {
+		e.Res.Violate("failing-input", "skipped-kind-in-change-set", fmt.Sprintf("%s RealmDiff (a schema only in the desired realm, one only in the current realm): kinds %v are skipped but the change set contains %v", sc.Dialect, sc.Skip, found), "Props.C19.skip_sound", replay)
+		return
+	}
+	if hxJSON(got) != hxJSON(want) {
+		e.Res.Violate("failing-input", "skip-drops-or-adds-other-changes", fmt.Sprintf("%s RealmDiff skip=%v: got %v, expected (unskipped diff minus skipped kinds) %v", sc.Dialect, sc.Skip, got, want), "Props.C19.skip_complete", replay)
 	}
 }
